@@ -42,7 +42,7 @@ def unchanged(ctx, Y, snap, what):
 @st.composite
 def cases(draw, tier):
     kw = dict(d_max=6, size_max=4096, r_max=6) if tier == "quick" else dict(d_max=8, size_max=2 ** 15, r_max=8)
-    spec = draw(gen.tt_specs(**kw))
+    spec = draw(gen.tt_specs(int_storage=True, **kw))
     # how the caller spells the pivot / core number: a Python int or what NumPy code produces (np.arange, argmax, rng.integers)
     case = {"Y": spec, "kspell": draw(st.sampled_from(["int", "int", "int64", "int32", "uint8", "intp", "arr0"]))}
     if draw(st.integers(0, 2)) == 0:
@@ -104,7 +104,7 @@ def check_orth(ctx, Y, F, Z, p, k, stab, tF, nrmY):
 
 def prop_orth(case, ctx):
     spec = case["Y"]
-    Y = gen.build_tt(spec)
+    Y = gen.build_tt(spec, as_float=True)
     d = len(Y)
     F = dense(Y)
     nrmY = fro(F)
@@ -140,30 +140,33 @@ def prop_orth(case, ctx):
                 ctx.inner(1)
         ctx.nontrivial(True)
         return
-    snap = snapshot(Y)
+    YL = gen.build_tt(spec)          # what the library is given (integer arrays if the spec says so); Y is its float64 copy
+    if spec.get("store"):
+        ctx.label("stored_as:" + spec["store"])
+    snap = snapshot(YL)
     changed_any = False
     for k in range(d):
         for stab in (False, True):
-            res = ctx.lib(teneva.orthogonalize, Y, sp(k), stab)
+            res = ctx.lib(teneva.orthogonalize, YL, sp(k), stab)
             if stab:
                 ctx.check(isinstance(res, tuple) and len(res) == 2, "orthogonalize(use_stab=True) must return (Z, p)")
                 Z, p = res
             else:
                 Z, p = res, 0
-            unchanged(ctx, Y, snap, "orthogonalize")
-            ctx.check(Z is not Y and all(a is not b for a, b in zip(Z, Y)), "orthogonalize returned its argument's cores")
+            unchanged(ctx, YL, snap, "orthogonalize")
+            ctx.check(Z is not YL and all(a is not b for a, b in zip(Z, YL)), "orthogonalize returned its argument's cores")
             ch = check_orth(ctx, Y, F, Z, p, k, stab, tF, nrmY)
             changed_any = changed_any or ch
             ctx.inner(1, nontrivial_key=f"k{k}s{int(stab)}" if (ch or (max(spec["r"]) >= 2 and 0 < k < d - 1)) else None)
     # default pivot is the last mode
-    Z = ctx.lib(teneva.orthogonalize, Y)
+    Z = ctx.lib(teneva.orthogonalize, YL)
     check_orth(ctx, Y, F, Z, 0, d - 1, False, tF, nrmY)
     for bad in (-1, d, d + 3):
-        ctx.raises(ValueError, teneva.orthogonalize, Y, bad)
-        ctx.raises(ValueError, teneva.orthogonalize, Y, bad, True)
+        ctx.raises(ValueError, teneva.orthogonalize, YL, bad)
+        ctx.raises(ValueError, teneva.orthogonalize, YL, bad, True)
         if case.get("kspell", "int") not in ("int", "uint8") or bad >= 0:
-            ctx.raises(ValueError, teneva.orthogonalize, Y, sp(bad))
-    unchanged(ctx, Y, snap, "orthogonalize(invalid pivot)")
+            ctx.raises(ValueError, teneva.orthogonalize, YL, sp(bad))
+    unchanged(ctx, YL, snap, "orthogonalize(invalid pivot)")
     if changed_any:
         ctx.label("rank_changed")
     ctx.nontrivial(changed_any or max(spec["r"]) >= 2)
@@ -171,11 +174,12 @@ def prop_orth(case, ctx):
 
 def prop_step(case, ctx):
     spec = case["Y"]
-    Y0 = gen.build_tt(spec)
+    Y0 = gen.build_tt(spec)          # integer arrays if the spec says so; references from the float64 copy
+    Y0f = gen.build_tt(spec, as_float=True)
     d = len(Y0)
     n = oracle.shape_of(Y0)
-    F = dense(Y0)
-    tF = tolF(Y0)
+    F = dense(Y0f)
+    tF = tolF(Y0f)
     ctx.label(*gen.spec_labels(spec), "core_number_as:" + case.get("kspell", "int"))
     sp = SPELL[case.get("kspell", "int")]
     for left in (True, False):
@@ -199,7 +203,7 @@ def prop_step(case, ctx):
                     ctx.check(Z is not Y, f"{fn.__name__}(inplace=False) returned its argument")
                     unchanged(ctx, Y, snap, fn.__name__)
                     ctx.check(all(zg is not yg for zg, yg in zip(Z, Y)), f"{fn.__name__}(inplace=False) shares core objects with its argument")
-                why = oracle.wellformed(Z, n)
+                why = oracle.wellformed(Z, n, int_ok=bool(spec.get("store")))     # (the untouched cores keep the caller's storage type)
                 ctx.check(why is None, f"{fn.__name__}: result not well-formed: {why}")
                 ctx.check(fro(dense(Z) - F) <= tF, f"{fn.__name__}: denoted tensor changed", i=i, err=fro(dense(Z) - F), tol=tF)
                 G = Z[i]
